@@ -900,6 +900,73 @@ def _derived_bt_shard(shard: T.Tuple[T.List[T.Tuple[T.Optional[int], T.Optional[
     bucket.flush(root, ev, fails)
 
 
+# (c2) the same rule on an already configured directory: `meson configure` / `meson setup --reconfigure` with buildtype and explicit
+# debug / optimization on ONE command line, in every order ("unless they are given explicitly": where on the command line
+# the explicit value stands is not part of the rule)
+
+def btdir_cells() -> T.List[T.Tuple[str, str, T.Tuple[str, ...]]]:
+    out = []
+    for cmd in ('configure', 'reconfigure'):
+        for bt in BT_NAMES:
+            for names in (('buildtype', 'debug'), ('buildtype', 'optimization'), ('buildtype', 'debug', 'optimization')):
+                for order in itertools.permutations(names):
+                    out.append((cmd, bt, order))
+    return out
+
+
+def check_btdir(cell: T.Sequence[T.Any], root: str, inproc: bool = True) -> T.Optional[Failure]:
+    from harness import mesondrv
+    cmd, bt, order = cell[0], cell[1], tuple(cell[2])
+    dbg = not BT_TABLE[bt][0]
+    opt = [o for o in ('g', '1', '2', '3') if o != BT_TABLE[bt][1]][len(order) % 3]
+    vals = {'buildtype': bt, 'debug': 'true' if dbg else 'false', 'optimization': opt}
+    sc = new_scenario(False)
+    sc['with_sp'] = False
+    res = run_scenario(sc, root, inproc=inproc)
+    if res.rc != 0:
+        raise HarnessError('default setup failed: ' + res.text[-400:])
+    dargs = [f'-D{n}={vals[n]}' for n in order]
+    bdir = os.path.join(root, 'build')
+    args = ['configure'] + dargs + [bdir] if cmd == 'configure' else ['setup', '--reconfigure'] + dargs + [bdir, os.path.join(root, 'src')]
+    r = mesondrv.run_inproc(args) if inproc else mesondrv.run_sub(args)
+    fcase = {'kind': 'btdir', 'cell': [cmd, bt, list(order)]}
+    shown = f'default `meson setup`, then `meson {" ".join(args[:-1] if cmd == "configure" else args[:-2])}`'
+    if r.rc != 0:
+        return Failure(f'derived-dir/{cmd}:command-fails', fcase, f'{shown} failed: {error_lines(r)}')
+    entries = introspect(root, inproc)
+    if entries is None:
+        return Failure(f'derived-dir/{cmd}:introspect-fails', fcase, f'{shown}: meson introspect --buildoptions fails afterwards')
+    want = {'buildtype': bt,
+            'debug': dbg if 'debug' in order else BT_TABLE[bt][0],
+            'optimization': opt if 'optimization' in order else BT_TABLE[bt][1]}
+    got = {n: entries.get(n, {}).get('value', '<missing>') for n in want}
+    bad = [n for n in want if got[n] != want[n]]
+    if bad:
+        kind = 'explicit-value-lost' if any(n in order for n in bad if n != 'buildtype') else 'not-derived'
+        return Failure(f'derived-dir/{cmd}:{kind}', fcase,
+                       f'{shown}: {", ".join(f"{n} is {got[n]!r}, expected {want[n]!r}" for n in bad)} (buildtype sets debug/optimization per the '
+                       'table in Builtin-options.md unless they are given explicitly - here on the same command line)')
+    return None
+
+
+def _btdir_shard(cells: T.List[T.Tuple[str, str, T.Tuple[str, ...]]], ev: Evidence, fails: T.List[Failure]) -> None:
+    root = os.path.join(_workdir(), 'w')
+    seen: T.Set[str] = set()
+    for n, cell in enumerate(cells):
+        f = check_btdir(cell, root)
+        if f is not None:
+            f2 = check_btdir(cell, root, inproc=False)      # confirmed in fresh processes before it counts
+            if f2 is None:
+                ev.inproc_only += 1
+            elif f2.sig not in seen:
+                seen.add(f2.sig)
+                fails.append(f2)
+        ev.case(list(cell[:2]) + [list(cell[2])], nontrivial=True, cls='derived:buildtype:configured-dir:' + cell[0],
+                sample={'command': cell[0], 'buildtype': cell[1], 'order_on_the_command_line': list(cell[2])})
+        if n % 32 == 31:
+            _clear_leaky_state()
+
+
 # Builtin-options.md "Universal options": prefix-dependent defaults, else the Directories table
 PREFIX_DIRS = {'sysconfdir': {'/usr': '/etc', None: 'etc'},
                'localstatedir': {'/usr': '/var', '/usr/local': '/var/local', None: 'var'},
@@ -1494,6 +1561,7 @@ def _probe_shard(shard: str, ev: Evidence, fails: T.List[Failure]) -> None:
 SHARD_FUNCS: T.Dict[str, T.Callable[[T.Any, Evidence, T.List[Failure]], None]] = {
     'sp_builtin': _sp_builtin_shard, 'sp_project': _sp_project_shard, 'top': _top_shard, 'derived_bt': _derived_bt_shard,
     'derived_prefix': _derived_prefix_shard, 'validity': _validity_shard, 'permachine': _permachine_shard,
+    'btdir': _btdir_shard,
     'direct': _direct_shard, 'compiler': _compiler_shard, 'latebase': _latebase_shard, 'probe': _probe_shard,
 }
 
@@ -1586,6 +1654,9 @@ def run(ctx: Ctx) -> None:
         shards.append((61, 'derived_bt', (cs, False)))
     for cs in chunks(cells if thorough else cells[ctx.seed % 4::4], 61):
         shards.append((61, 'derived_bt', (cs, True)))
+    bcells = btdir_cells()
+    for cs in chunks(bcells if thorough else bcells[ctx.seed % 2::2], 10):
+        shards.append((30, 'btdir', cs))
     pcells = [(pm, E, r) for pm in range(8) for E in (None, 0, 2, 3) for r in range(4)]
     for cross in (False, True):
         for cs in chunks(pcells, 32):
@@ -1649,6 +1720,8 @@ def replay(ctx: Ctx, case: T.Any, doc: dict) -> T.Optional[Failure]:
         if res.rc != 0:
             return Failure(case['group'] + '/setup-failed', case, f'{describe(case["scenario"])}\n  setup failed: {error_lines(res)}')
         return intro_check(case['group'], case['scenario'], root, case['want'], case['why'], inproc=False)
+    if kind == 'btdir':
+        return check_btdir(case['cell'], root, inproc=False)
     if kind == 'validity':
         return check_validity({k: v for k, v in case.items() if k != 'kind'}, root, None, inproc=False)
     raise HarnessError(f'unknown replay kind {kind!r}')
@@ -1662,7 +1735,7 @@ RULE = (
     '{no parent option, same-named parent, yield, yield + same-named parent, yield + parent of another type}, native and cross; '
     '(b) every subset of {default_options, machine file, command line} x {explicit, implicit declared default} for all other '
     'built-in/directory/module/per-machine/project options; (c) every (source of buildtype, source of debug, source of '
-    'optimization) triple and every prefix-source subset x explicit/default directories; (d) Hypothesis valid/invalid values per '
+    'optimization) triple, the same rule on a configured directory (`meson configure` / `setup --reconfigure` with buildtype and explicit debug/optimization in every order on one command line) and every prefix-source subset x explicit/default directories; (d) Hypothesis valid/invalid values per '
     'type via command line, machine file, default_options, subproject(default_options) and `meson configure`; (e) host/build '
     'per-machine options in a cross build; (f) the same tables directly against OptionStore with more value assignments '
     '(confirmed through the CLI). Each present source carries its own value, adjacent priority levels always differ. '
